@@ -3,6 +3,7 @@ pub mod alloc_count;
 pub mod bytes;
 pub mod cap;
 pub mod conv;
+pub mod dev488;
 pub mod engine;
 pub mod fixtree;
 pub mod model;
